@@ -44,7 +44,7 @@ PROPS = {
         "case_sets": ["parse"],
         "ops": ["PARSE", "PARSEV"],
         "oracle_clauses": [r"c08-.*", r"unreadable-.*"],
-        "lean_targets": ["PqlModel.Props.C08"],
+        "lean_targets": ["PqlModel.Props.C08", "PqlModel.Props.C08Full"],
         "facts": [],
         "rule": "same sources as C07; the oracle re-prints the implementation's tree and compares it with the reference "
                 "tokenizer's tokens of the source; non-trivial = distinct corrupted or generated source, accepted or rejected",
@@ -53,7 +53,7 @@ PROPS = {
         "case_sets": ["parse"],
         "ops": ["PARSE", "PARSEV"],
         "oracle_clauses": [r"c10-.*", r"unreadable-.*"],
-        "lean_targets": ["PqlModel.Props.C10"],
+        "lean_targets": ["PqlModel.Props.C10", "PqlModel.Props.C08Full"],
         "facts": ["structFields", "spanUnion"],
         "rule": "same sources as C07 in multi-line / tab / comment / non-ASCII layouts; every span field and every Span() "
                 "result of every node (reflection) is compared with the model and checked against the token positions; "
@@ -69,8 +69,8 @@ PROPS = {
                 "always returns true and with pseudo-random pruning masks; non-trivial = distinct (source, mask) that parses",
     },
     "C12": {
-        "case_sets": ["parse", "lex", "walk"],
-        "ops": ["PARSE", "PARSEV", "SCAN", "SPLIT", "WALK"],
+        "case_sets": ["parse", "compile", "walk", "lex"],
+        "ops": ["PARSE", "PARSEV", "SCAN", "SPLIT", "WALK", "COMPILE", "COMPILESEQ"],
         "oracle_clauses": [r"c12-.*"],
         "lean_targets": ["PqlModel.Props.C12", "PqlModel.Props.C12Fuel"],
         "facts": [],
@@ -81,7 +81,7 @@ PROPS = {
     "C01": {
         "case_sets": ["compile"],
         "ops": ["COMPILE"],
-        "oracle_clauses": [r"c01-.*", r"c05-lex", r"c05-parse", r"c05-brackets", r"unreadable-.*"],
+        "oracle_clauses": [r"c01-.*", r"c05-lex", r"c05-parse", r"c05-brackets", r"c12-.*", r"unreadable-.*"],
         "lean_targets": ["PqlModel.Props.C01"],
         "facts": ["binaryOps", "builtinIdentifiers", "knownFunctions", "writerArityGuard", "maybeParenBare", "precedence"],
         "rule": "COMPILE: hand-written corpus of expression shapes (parentheses, signs, index, in, every built-in as operand of "
